@@ -567,6 +567,17 @@ func (r *Run) Parallel(phase string, n, workers int, f func(i int, caseSeed int6
 // verdict is already "violated", the remaining cases add nothing.
 func (r *Run) StopEarly() { atomic.StoreInt32(&r.stopEarly, 1) }
 
+// TempDir creates the run's scratch directory; without one the run cannot be
+// trusted (relative paths would be shared between cases): inconclusive.
+func (r *Run) TempDir(prefix string) string {
+	dir, err := os.MkdirTemp("", prefix)
+	if err != nil || dir == "" {
+		r.Inconclusive(fmt.Sprintf("no scratch directory (TMPDIR=%q): %v", os.Getenv("TMPDIR"), err))
+		os.Exit(r.Finish())
+	}
+	return dir
+}
+
 // Workers returns the parallelism to use (VERIF_WORKERS or NumCPU).
 func Workers() int {
 	if v := os.Getenv("VERIF_WORKERS"); v != "" {
